@@ -9,7 +9,7 @@
    0 <= nanos < 10^9), a present public key is in canonical form ([pk_canon k = Some k]).
    [pk_canon] — crypto.UnmarshalPublicKey followed by crypto.MarshalPublicKey — is universally quantified. *)
 From Coq Require Import NArith ZArith List Bool.
-From Verif Require Import Model.Wire Model.WireReuse Proofs.WireProofs Proofs.WireReuseProofs.
+From Verif Require Import Model.Wire Model.WireReuse Model.WireCache Proofs.WireProofs Proofs.WireReuseProofs Proofs.WireCacheProofs.
 Import ListNotations.
 Open Scope N_scope.
 
@@ -255,6 +255,81 @@ Theorem C12_plain_copies_of_data_full :
 Proof. exact plain_copies_data. Qed.
 Print Assumptions C12_plain_copies_of_data_full.
 
+(* ---- the cache-file path (Model/WireCache.v; /repo/pkg/cache/cache.go SaveToDisk / LoadFromDisk).  A cache is
+   three maps (items by height and — only after a load — by string, seen hashes, DA-included heights); the
+   folder is four files; gob stores every item as its MarshalBinary bytes and rebuilds it with UnmarshalBinary
+   on a new value (the codecs of the theorems above).  [cache_eq a b]: the two caches agree on every key of
+   every map (nothing Get/IsSeen/GetDAIncludedHeight or a later save can tell apart; Go maps have no order).
+   [items_wf wf c]: every item held by c is well formed (for such items MarshalBinary cannot fail).
+
+   SaveToDisk then LoadFromDisk into a new cache: the save succeeds; the folder afterwards is the same WHATEVER
+   IT HELD BEFORE ([d'] does not depend on [d0]: every one of the four files is replaced on every save, an
+   empty map included); the load succeeds and yields the cache that was saved. ---- *)
+Theorem C12_cache_file_roundtrip_full :
+  (forall pk_canon (c : ccache wsigned_header), items_wf (wf_signed_header pk_canon) c ->
+     exists d', (forall d0, save sh_enc c d0 = (d', true)) /\
+                exists c', load_fresh (dec_signed_header pk_canon) d' = (c', true) /\ cache_eq c' c) /\
+  (forall (c : ccache wdata), items_wf wf_data c ->
+     exists d', (forall d0, save data_enc c d0 = (d', true)) /\
+                exists c', load_fresh dec_data d' = (c', true) /\ cache_eq c' c).
+Proof. exact cache_file_roundtrip_all. Qed.
+Print Assumptions C12_cache_file_roundtrip_full.
+
+(* histories over ONE folder.  [cstep] is one step (SetItem / DeleteItem / SetSeen / SetDAIncluded on the current
+   cache object, SaveToDisk, restart = new object + LoadFromDisk, new object without load, LoadFromDisk into the
+   current object); [cexec] runs a list of steps.  From ANY state [st] (any cache object with well-formed items,
+   any folder content — whatever earlier saves or anything else left there): save; then any steps that are not
+   a save (deleting items, new objects, loads, ...); then a restart.  The save and the restart's load succeed and
+   the loaded cache is the cache as it was when it was saved. *)
+Theorem C12_cache_load_returns_last_save_full :
+  (forall pk_canon (st : cstate wsigned_header) mid,
+     items_wf (wf_signed_header pk_canon) (cs_cache st) -> forallb (fun o => negb (is_save o)) mid = true ->
+     snd (cstep sh_enc (dec_signed_header pk_canon) st OSave) = true /\
+     let st3 := cexec sh_enc (dec_signed_header pk_canon) (fst (cstep sh_enc (dec_signed_header pk_canon) st OSave)) mid in
+     snd (cstep sh_enc (dec_signed_header pk_canon) st3 OLoad) = true /\
+     cache_eq (cs_cache (fst (cstep sh_enc (dec_signed_header pk_canon) st3 OLoad))) (cs_cache st)) /\
+  (forall (st : cstate wdata) mid,
+     items_wf wf_data (cs_cache st) -> forallb (fun o => negb (is_save o)) mid = true ->
+     snd (cstep data_enc dec_data st OSave) = true /\
+     let st3 := cexec data_enc dec_data (fst (cstep data_enc dec_data st OSave)) mid in
+     snd (cstep data_enc dec_data st3 OLoad) = true /\
+     cache_eq (cs_cache (fst (cstep data_enc dec_data st3 OLoad))) (cs_cache st)).
+Proof. exact cache_load_returns_last_save_all. Qed.
+Print Assumptions C12_cache_load_returns_last_save_full.
+
+(* the same with the hypothesis on the INPUTS of the history only: a node that starts with a new cache and no
+   folder and only ever stores well-formed items ([op_wf]).  After ANY steps [pre] — saves into the folder,
+   restarts, merges included — a save succeeds, and a restart after any save-free steps [mid] gets back the
+   cache as it was saved (items that were loaded from the folder earlier are covered: the invariant
+   "every item in the cache and every item in the folder survives the trip through its bytes" is kept by
+   every step, Proofs/WireCacheProofs.v cstep_good). *)
+Theorem C12_cache_history_full :
+  (forall pk_canon pre mid, Forall (op_wf (wf_signed_header pk_canon)) pre -> forallb (fun o => negb (is_save o)) mid = true ->
+     let st := cexec sh_enc (dec_signed_header pk_canon) {| cs_cache := cempty _; cs_dir := dir_none |} pre in
+     snd (cstep sh_enc (dec_signed_header pk_canon) st OSave) = true /\
+     let st3 := cexec sh_enc (dec_signed_header pk_canon) (fst (cstep sh_enc (dec_signed_header pk_canon) st OSave)) mid in
+     snd (cstep sh_enc (dec_signed_header pk_canon) st3 OLoad) = true /\
+     cache_eq (cs_cache (fst (cstep sh_enc (dec_signed_header pk_canon) st3 OLoad))) (cs_cache st)) /\
+  (forall pre mid, Forall (op_wf wf_data) pre -> forallb (fun o => negb (is_save o)) mid = true ->
+     let st := cexec data_enc dec_data {| cs_cache := cempty _; cs_dir := dir_none |} pre in
+     snd (cstep data_enc dec_data st OSave) = true /\
+     let st3 := cexec data_enc dec_data (fst (cstep data_enc dec_data st OSave)) mid in
+     snd (cstep data_enc dec_data st3 OLoad) = true /\
+     cache_eq (cs_cache (fst (cstep data_enc dec_data st3 OLoad))) (cs_cache st)).
+Proof. exact cache_history_all. Qed.
+Print Assumptions C12_cache_history_full.
+
+(* [cache_eq] is what the getters see, and the observation list [crun] that the harness compares step by step is
+   the list of the states of [cexec] (any codec) *)
+Theorem C12_cache_observations_full :
+  (forall T (a b : ccache T), cache_eq a b ->
+     (forall h, get_item a h = get_item b h) /\ (forall s, is_seen a s = is_seen b s) /\ (forall s, da_height a s = da_height b s)) /\
+  (forall T enc dec ph ps ops (st : cstate T) pre o post, ops = pre ++ o :: post ->
+     nth_error (crun enc dec ph ps st ops) (length pre) =
+     Some (cobserve ph ps (fst (cstep enc dec (cexec enc dec st pre) o)) (snd (cstep enc dec (cexec enc dec st pre) o)))).
+Proof. exact (conj (@cache_eq_getters) (@crun_nth)). Qed.
+Print Assumptions C12_cache_observations_full.
+
 (* ---- golden vectors: the model reproduces, byte for byte, encodings recorded from the pinned tree
    (harness/c12/golden_c12.json; the Go side re-checks bytes and SHA-256 hashes on every run) ---- *)
 Definition g_header_v : wheader := {| h_version := {| v_block := 11312320731339805339%N; v_app := 126223181233767173%N |}; h_height := 7288491879053759085%N; h_time := 68%N; h_last_header := []%N; h_last_commit := [8;229;138;118;212;60;111;95]%N; h_data_hash := [0;0;0]%N; h_consensus := [34;6;243;166;127;207]%N; h_app_hash := []%N; h_last_results := [141;25;231;222;10;124]%N; h_proposer := [130;155;14;94;233;115]%N; h_validator := []%N; h_chain := [116;101;115;116;45;99;104;97;105;110]%N |}.
@@ -363,3 +438,32 @@ Example signed_data_without_data_field_keeps_receiver_data :
   into_signed_data (fun k => Some k) r (f_bytes 2 [9]) = ({| sd_data := ex_data 1; sd_sig := [9]; sd_signer := signer0 |}, true) /\
   dec_signed_data (fun k => Some k) (f_bytes 2 [9]) = Some {| sd_data := data0; sd_sig := [9]; sd_signer := signer0 |}.
 Proof. vm_compute. split; reflexivity. Qed.
+
+(* ---- cache files: non-vacuity.  A node stops with an item pending (save), restarts (load), processes and
+   deletes the item so that the by-height index is EMPTY, stops (save into the same folder), restarts: the
+   deleted item is not back, the folder holds an empty items file, the marks are there. ---- *)
+Definition ex_cache_ops : list (cop wdata) :=
+  [OSetItem 42 (ex_data 1); OSetSeen [97]; OSave; OLoad; ODelItem 42; OSetDA [97] 7; OSave; OLoad].
+Example ex_cache_history :
+  cache_history data_enc dec_data dir_none [42] [[97]] ex_cache_ops =
+  let d1 := {| f_items := Some [(42, enc_data (ex_data 1))]; f_sitems := Some []; f_hashes := Some [([97], true)]; f_da := Some [] |} in
+  let d2 := {| f_items := Some []; f_sitems := Some []; f_hashes := Some [([97], true)]; f_da := Some [([97], 7)] |} in
+  [ (true, [Some (ex_data 1)], [false], [None], dir_none);
+    (true, [Some (ex_data 1)], [true], [None], dir_none);
+    (true, [Some (ex_data 1)], [true], [None], d1);
+    (true, [Some (ex_data 1)], [true], [None], d1);
+    (true, [None], [true], [None], d1);
+    (true, [None], [true], [Some 7], d1);
+    (true, [None], [true], [Some 7], d2);
+    (true, [None], [true], [Some 7], d2) ].
+Proof. vm_compute. reflexivity. Qed.
+Example ex_cache_ops_wf : Forall (op_wf wf_data) ex_cache_ops.
+Proof.
+  repeat constructor;
+  try (match goal with Hm : d_meta _ = Some _ |- _ => inversion Hm; subst; clear Hm end); unfold sz, len, two64; cbn; reflexivity.
+Qed.
+(* an item whose chain id is not UTF-8 does not marshal: the save fails and the folder keeps what it held *)
+Example ex_cache_save_fails :
+  let bad := {| d_meta := Some {| m_chain := [255]; m_height := 1; m_time := 0; m_last := [] |}; d_txs := [] |} in
+  map (fun o => fst (fst (fst (fst o)))) (cache_history data_enc dec_data dir_none [] [] [OSetItem 1 bad; OSave; OLoad]) = [true; false; true].
+Proof. vm_compute. reflexivity. Qed.
